@@ -18,7 +18,7 @@ ORACLE = {
     "C03": "dense matrix of the real tree (basis vectors) vs numpy block-matrix expression of its parts; A(x).shape = A.oshape; misfits must raise; inputs of the advertised rank whose shape differs from ishape must be rejected at application",
     "C04": "A.N(x) vs A.H(A(x)) for all classes/trees, all 1-D block layouts up to length 7; ArrayToBlocks in 1-3 D: A.H(A(x)) = A.N(x) = cover * x with the brute-force cover count (incl. stride == block with a non-dividing extent); BlocksToArray.N(1) = 1 iff B <= S or one block; Toeplitz NUFFT within 6 % / 0.6 %",
     "C05": "explicit complex128 DFT-matrix product incl. centre pad/crop in 1-4 dims, round trip, norm, dtype preservation, A.N(x) = x",
-    "C06": "exact NUDFT vs sp.nufft: per-coordinate row error of the implementation matrix (< 3 % defaults, < 0.3 % oversamp 2), adjoint dot test 1e-6 over oversamp x width, periodicity (skipped at float window-edge ties), batch axes / Linops; Toeplitz normal: NUFFT(oversamp=2, width 7/8, toeplitz=True).N(x) vs A.H(A(x)) within 3e-4 (clean maximum 2.6e-5; a psf built with another kernel deviates by > 1.6e-3)",
+    "C06": "exact NUDFT vs sp.nufft: per-coordinate row error of the implementation matrix (< 3 % defaults, < 0.3 % oversamp 2), adjoint dot test 1e-6 over oversamp x width, periodicity (skipped at float window-edge ties), batch axes / Linops; Toeplitz normal: NUFFT(oversamp=2, width 7/8, toeplitz=True).N(x) vs A.H(A(x)) within 3e-4 (clean maximum 2.6e-5; a psf built with another kernel deviates by > 1.6e-3); correspondence stream 'identity': real nufft / nufft_adjoint matrices vs NUDFT x apodisation x kernel sum (driver window data) at 1e-9",
     "C07": "direct evaluation of the documented kernel sum in numpy, scipy.special.i0 for Kaiser-Bessel (2.5e-7), duplicates/wrapped contributions add",
     "C08": "independent nested-sum reference, exact integer dot tests for both adjoints, shapes, mixed real/complex dtypes (rejected with TypeError or correct, never silently real), through the functions, the four Linop classes and .H of each",
     "C09": "index loops written from the statement (pure numpy), exact equality, functions and Linops",
